@@ -69,31 +69,36 @@ def build(ctx):
         else:
             os.replace(drive + ".tmp%d" % os.getpid(), drive)
     ctx.drive = drive
-    extract = os.path.join(d, "extract")
-    if os.path.isdir(os.path.join(VERIF, "harness/cmd/extract")):
-        stamp = os.path.join(d, "extract.done")
-        if not os.path.exists(stamp):
-            hz = os.path.join(VERIF, "harness")
-            rc, out = sh(["go", "build", "-o", extract, "./cmd/extract"], cwd=hz, env=GOENV)
+    # the Lean project: /verif/lean for /repo itself; a private copy (sources and build products) for a
+    # scratch tree, because the generated facts differ per tree
+    lean = LEAN
+    if os.path.realpath(REPO) != "/repo":
+        lean = os.path.join(d, "lean")
+        if not os.path.isdir(lean):
+            sh(["cp", "-a", LEAN, lean + ".tmp%d" % os.getpid()])
+            os.replace(lean + ".tmp%d" % os.getpid(), lean)
+    ctx.lean = lean
+    # Tie 1: regenerate the static facts (Generated/Facts.lean) from the tree under check
+    stamp = os.path.join(d, "extract.done")
+    if not os.path.exists(stamp):
+        hz = os.path.join(d, "harness") if os.path.isdir(os.path.join(d, "harness")) else os.path.join(VERIF, "harness")
+        extract = os.path.join(d, "extract")
+        rc, out = sh(["go", "build", "-o", extract, "./cmd/extract"], cwd=hz, env=GOENV)
+        if rc != 0:
+            fails.append(("extract-build", out[-3000:]))
+        else:
+            rc, out = sh([extract, "-repo", REPO, "-out", os.path.join(lean, "SaoVerif/Generated")], env=GOENV)
             if rc != 0:
-                fails.append(("extract-build", out[-3000:]))
+                fails.append(("extract-run", out[-3000:]))
             else:
-                gen = os.path.join(LEAN, "SaoVerif/Generated")
-                os.makedirs(gen, exist_ok=True)
-                for f in glob.glob(gen + "/*.lean"):
-                    os.remove(f)
-                rc, out = sh([extract, "-repo", REPO, "-out", gen], cwd=hz, env=GOENV)
-                if rc != 0:
-                    fails.append(("extract-run", out[-3000:]))
-                else:
-                    open(stamp, "w").write("ok")
+                open(stamp, "w").write("ok")
     # Lean: proofs, obligations, driver
     stamp = os.path.join(d, "lake.done")
     logp = os.path.join(d, "lake.log")
     if not os.path.exists(stamp):
         if ctx.tier == "thorough":
-            sh(["lake", "clean"], cwd=LEAN)
-        rc, out = sh(["lake", "build", "SaoVerif", "saomodel"], cwd=LEAN)
+            sh(["lake", "clean"], cwd=lean)
+        rc, out = sh(["lake", "build", "SaoVerif", "saomodel"], cwd=lean)
         open(logp, "w").write(out)
         if rc == 0:
             open(stamp, "w").write("ok")
@@ -101,7 +106,7 @@ def build(ctx):
     ctx.lake_log = out
     if not os.path.exists(stamp):
         fails.append(("lake-build", out[-6000:]))
-    ctx.model = os.path.join(LEAN, ".lake/build/bin/saomodel")
+    ctx.model = os.path.join(lean, ".lake/build/bin/saomodel")
     return fails
 
 def audit(ctx):
@@ -112,7 +117,8 @@ def audit(ctx):
         return json.load(open(outp))
     problems = []
     pat = re.compile(r"sorry|admit|^axiom |native_decide|bv_decide|implemented_by|unsafe |maxHeartbeats 0")
-    for f in glob.glob(LEAN + "/SaoVerif/**/*.lean", recursive=True) + [LEAN + "/Main.lean"]:
+    L = ctx.lean
+    for f in glob.glob(L + "/SaoVerif/**/*.lean", recursive=True) + [L + "/Main.lean"]:
         incomment = False
         for n, line in enumerate(open(f), 1):
             s = line
@@ -126,11 +132,11 @@ def audit(ctx):
             if pat.search(code):
                 problems.append(f"{os.path.relpath(f, VERIF)}:{n}: {line.strip()}")
     thms = {}
-    rc, out = sh([sys.executable, os.path.join(VERIF, "scripts/gen_audit.py")], cwd=VERIF)
+    rc, out = sh([sys.executable, os.path.join(VERIF, "scripts/gen_audit.py"), L], cwd=VERIF)
     if rc != 0:
         problems.append("gen_audit failed: " + out[-500:])
-    if os.path.exists(os.path.join(LEAN, "Audit.lean")):
-        rc, out = sh(["lake", "env", "lean", "Audit.lean"], cwd=LEAN)
+    if os.path.exists(os.path.join(L, "Audit.lean")):
+        rc, out = sh(["lake", "env", "lean", "Audit.lean"], cwd=L)
         cur = None
         for line in out.splitlines():
             m = re.match(r"'([^']+)' depends on axioms: \[(.*)\]", line)
@@ -224,7 +230,19 @@ def main():
             files = set(f for f, _ in mine)
             rel = [f for f in files if f"Properties/{prop}" in f or "Properties/" not in f]
             if rel or not files:
-                broken.append(f"lake build failed in {sorted(files)}")
+                # name the declarations that no longer check
+                decls = []
+                for f, ln in mine:
+                    if f not in rel: continue
+                    try:
+                        lines = open(os.path.join(ctx.lean, f)).read().split("\n")
+                        for k in range(min(int(ln), len(lines)) - 1, -1, -1):
+                            m = re.match(r"\s*(?:private\s+)?(theorem|lemma|def|example|instance)\s+([\w'.]+)?", lines[k])
+                            if m:
+                                decls.append(f"{f}:{m.group(1)} {m.group(2) or ''}".strip()); break
+                    except Exception:
+                        pass
+                broken.append(f"lake build failed in {sorted(rel) or sorted(files)}; declarations that no longer check: {sorted(set(decls))}")
         else:
             broken.append(f"{kind}: {msg[-400:]}")
     if not fails:
@@ -233,11 +251,11 @@ def main():
             broken.append("audit: " + p)
     my_thms = {t: a for t, a in au["theorems"].items() if re.search(rf"\b{prop}_", t) or t.startswith(f"SaoVerif.{prop}.")}
     rechecked = None
-    if not fails and tier == "thorough" and os.path.exists(os.path.join(LEAN, f"SaoVerif/Properties/{prop}.lean")):
+    if not fails and tier == "thorough" and os.path.exists(os.path.join(ctx.lean, f"SaoVerif/Properties/{prop}.lean")):
         # independent re-check of the compiled property module (and its imports) by leanchecker
         stamp = os.path.join(ctx.dir, f"leanchecker-{prop}.txt")
         if not os.path.exists(stamp):
-            rc, out = sh(["lake", "env", "leanchecker", f"SaoVerif.Properties.{prop}"], cwd=LEAN, timeout=1800)
+            rc, out = sh(["lake", "env", "leanchecker", f"SaoVerif.Properties.{prop}"], cwd=ctx.lean, timeout=1800)
             open(stamp, "w").write(f"{rc}\n{out[-2000:]}")
         txt = open(stamp).read()
         rechecked = txt.split("\n", 1)[0] == "0"
